@@ -6,6 +6,7 @@ package parser
 import (
 	"bufio"
 	"bytes"
+	"math"
 	"regexp"
 	"sort"
 	"strings"
@@ -62,6 +63,8 @@ func replaceSuffixes(inputLines *bytes.Buffer, suffixReplacements []suffixReplac
 
 	var sb strings.Builder
 	scanner := bufio.NewScanner(inputLines)
+	// lines may be longer than bufio.MaxScanTokenSize
+	scanner.Buffer(nil, math.MaxInt)
 	scanner.Split(bufio.ScanLines)
 	skipRegex := regexp.MustCompile(`^(?:##!|\s*$)`)
 	for scanner.Scan() {
@@ -90,6 +93,8 @@ func removeExclusions(parser *Parser, excludeFileNames []string, includeMap map[
 		logger.Debug().Msgf("Processing exclusions from %s", fileName)
 		excludeContent, _ := parseFile(parser, fileName, definitions)
 		scanner := bufio.NewScanner(excludeContent)
+		// lines may be longer than bufio.MaxScanTokenSize
+		scanner.Buffer(nil, math.MaxInt)
 		scanner.Split(bufio.ScanLines)
 		for scanner.Scan() {
 			exclusion := scanner.Text()
@@ -102,6 +107,8 @@ func removeExclusions(parser *Parser, excludeFileNames []string, includeMap map[
 func buildinclusionLineMap(parser *Parser, includeFileName string) (inclusionLineMap, map[string]string) {
 	includeContent, definitions := parseFile(parser, includeFileName, nil)
 	includeScanner := bufio.NewScanner(includeContent)
+	// lines may be longer than bufio.MaxScanTokenSize
+	includeScanner.Buffer(nil, math.MaxInt)
 	includeScanner.Split(bufio.ScanLines)
 	includeMap := make(inclusionLineMap, 100)
 	index := 0
